@@ -183,3 +183,6 @@ META = dict(
     assumptions=["1-minute concrete grid; collapsed raw candles taken from the reference resampler (C03)"],
     explanation="converted OHLC, tags, saved raw values and readings compared with the HA recurrence for all candle values under each schedule",
 )
+
+# families added after the seeding rounds (kept next to the original bound so that MANIFEST / evidence stay current)
+META["bounds"] = dict(META["bounds"], quick=META["bounds"]["quick"] + "; added after the seeding rounds: " + '40-second grid; maintenance operation before every append but the first; any four non-negative prices per candle')
